@@ -17,7 +17,7 @@ func init() {
 		Technique: "witness-path analysis (drain-or-close after the handler in chunkWriter.writeHeader, response.finishRequest and bfe_http.body.Close), loop-exit reachability in conn.serve (no path from an error reply or a failed parse back to readRequest), implied-fact analysis of serveRequest's keep-alive result, guard census of the chunk writer's connection writes and of the chunking flag (bodiless replies), must-pass analysis of the connection-buffer flush after the chunk writer was closed (reply completely on the wire), value-origin census of the method consulted by the shared request/response framing code (shared with C24), who-may-write census of Request.Body/ContentLength in the request parser",
 		Meta: core.Meta{
 			Level:       "other",
-			Explanation: "Decides: (a) drain-or-close in chunkWriter.writeHeader - every path to the header write either ran the bounded io.CopyN(Discard, Body, limit), or saw ContentLength == 0, closeAfterReply == true, or an un-invited 100-continue body; after the CopyN every path calls requestTooLarge() or Body.Close(); Body.Close() is reached only when fewer bytes than the limit were discarded (the body ended), requestTooLarge() is followed by setHeader.connection = \"close\" on every path to the header write, and requestTooLarge sets closeAfterReply and requestBodyLimitHit on every path; (b) response.finishRequest closes (drains) the request body on every path that did not see closeAfterReply == true; bfe_http.body.Close copies the rest of the body to Discard unless the body is already closed or the connection is closing; expectContinueReader.Close closes the wrapped body; (c) in conn.serve the next readRequest is reachable from a readRequest only over err == nil, never after an error reply written by serve itself (413/414/400, sendExpectationFailed, finishRequest, closeWriteAndWait), and after serveRequest only over `serveRequest() == true` and `closeAfterReply == false`; (d) serveRequest returns true only if both ReverseProxy.ServeHTTP and FinishReq returned keepAlive. (e) nothing follows the header block of a bodiless reply: every write of chunkWriter.Write/close/flush to the connection buffer happens under Method != HEAD or under chunking == true, and, where a write relies on the chunking flag alone (the last-chunk in close), chunking is switched on only under Method != HEAD and status not 304/204 (no stray last-chunk after a HEAD reply). (f) replies leave in order: in response.finishRequest every path from chunkWriter.close() (which puts the header block of a bodiless reply / the last-chunk into conn.buf) to the exit passes conn.buf.Flush() (directly or through a bfe_server helper that flushes on all its paths) - conn.serve writes its own 400/413/414 replies to the socket past conn.buf, so anything still buffered would be overtaken. (g) body bytes are never read as a request because of the request's method: every branch of readTransfer/fixLength/fixTransferEncoding/fixTrailer on a request method consults a method that cannot be the parsed request's own (constants or Response.Request.Method) or is taken only for responses (rule shared with C24), and inside everything bfe_http.ReadRequest / conn.readRequest run, Request.Body and Request.ContentLength are only ever set from the transferReader's Body / ContentLength. Not covered: ordering of replies beyond the end-of-reply flush, at-most-one final reply per request, 100-continue sequencing on the wire, how the body length was determined (C24), what ServeHTTP returns for which failure, hijacked/websocket connections.",
+			Explanation: "Decides: (a) drain-or-close in chunkWriter.writeHeader - every path to the header write either ran the bounded io.CopyN(Discard, Body, limit), or saw ContentLength == 0, closeAfterReply == true, or an un-invited 100-continue body; after the CopyN every path calls requestTooLarge() or Body.Close(); Body.Close() is reached only when fewer bytes than the limit were discarded (the body ended), requestTooLarge() is followed by setHeader.connection = \"close\" on every path to the header write, and requestTooLarge sets closeAfterReply and requestBodyLimitHit on every path; (b) response.finishRequest closes (drains) the request body on every path that did not see closeAfterReply == true; bfe_http.body.Close copies the rest of the body to Discard unless the body is already closed or the connection is closing; expectContinueReader.Close closes the wrapped body; (c) in conn.serve the next readRequest is reachable from a readRequest only over err == nil, never after an error reply written by serve itself (413/414/400, sendExpectationFailed, finishRequest, closeWriteAndWait), and after serveRequest only over `serveRequest() == true` and `closeAfterReply == false`; (d) serveRequest returns true only if both ReverseProxy.ServeHTTP and FinishReq returned keepAlive. (e) nothing follows the header block of a bodiless reply: every write of chunkWriter.Write/close/flush to the connection buffer happens under Method != HEAD or under chunking == true, and, where a write relies on the chunking flag alone (the last-chunk in close), chunking is switched on only under Method != HEAD and status not 304/204 (no stray last-chunk after a HEAD reply). (f) replies leave in order: in response.finishRequest every path from chunkWriter.close() (which puts the header block of a bodiless reply / the last-chunk into conn.buf) to the exit passes conn.buf.Flush() (directly or through a bfe_server helper that flushes on all its paths) - conn.serve writes its own 400/413/414 replies to the socket past conn.buf, so anything still buffered would be overtaken. (g) body bytes are never read as a request because of the request's method: every branch of readTransfer/fixLength/fixTransferEncoding/fixTrailer on a request method consults a method that cannot be the parsed request's own (constants or Response.Request.Method) or is taken only for responses (rule shared with C24), and inside everything bfe_http.ReadRequest / conn.readRequest run, Request.Body and Request.ContentLength are only ever set from the transferReader's Body / ContentLength. The rules on chunkWriter.writeHeader and response.finishRequest look at the region of the function (unexported helpers called from nowhere else are inlined by the path search, which returns to the caller with the result of the helper bound, so `if cw.discardBody() { announce close }` is followed; a drain inside a helper is found, its guards include those of the call site); conditions are decided per path with boolean phis bound (named booleans, tagless switch, early returns). Forms not followed (reported): the CopyN result compared with the limit in another function than the one that holds the CopyN, helpers nested deeper than four levels, the readRequest/serveRequest calls moved out of conn.serve. Not covered: ordering of replies beyond the end-of-reply flush, at-most-one final reply per request, 100-continue sequencing on the wire, how the body length was determined (C24), what ServeHTTP returns for which failure, hijacked/websocket connections.",
 			RuleText:    "obligations = per CopyN drain site (resolved, bounded, close-only-if-ended, close announced), the no-drain paths, the writers in requestTooLarge, the exits of finishRequest / body.Close / expectContinueReader.Close, per terminal reply in conn.serve, the two loop-continue edges, per return of serveRequest, per connection write of the chunk writer after the header block, per store switching chunking on, per chunkWriter.close call of finishRequest (flush on all paths after it), per method-dependent branch of the framing functions, per store to Request.Body/ContentLength in the request parser",
 		},
 		Run: runC28,
@@ -44,6 +44,7 @@ func init() {
 			{Name: "silent-close-tests-head-too", Silent: true, File: "bfe_server/chunk_writer.go", Old: "	if cw.chunking {\n		// zero EOF chunk,", New: "	if cw.chunking && cw.res.req.Method != \"HEAD\" {\n		// zero EOF chunk,"},
 			{Name: "silent-log-before-break", Silent: true, File: "bfe_server/http_conn.go", Old: "			w.sendExpectationFailed()\n			break", New: "			w.sendExpectationFailed()\n			log.Logger.Debug(\"conn.serve(): expectation failed\")\n			break"},
 			{Name: "silent-drain-rewritten", Silent: true, File: "bfe_server/chunk_writer.go", Old: "			if n >= maxPostHandlerReadBytes {\n				w.requestTooLarge()\n				delHeader(\"Connection\")\n				setHeader.connection = \"close\"\n			} else {\n				w.req.Body.Close()\n			}", New: "			if n < maxPostHandlerReadBytes {\n				w.req.Body.Close()\n			} else {\n				delHeader(\"Connection\")\n				setHeader.connection = \"close\"\n				w.requestTooLarge()\n			}"},
+			{Name: "silent-body-drain-in-helper", Silent: true, File: "bfe_server/response.go", Old: "\tif !w.closeAfterReply {\n\t\tw.req.Body.Close()\n\t}\n\tif w.req.MultipartForm != nil {\n\t\tw.req.MultipartForm.RemoveAll()\n\t}\n\n\tif w.req.Method != \"HEAD\" && w.contentLength != -1 && w.bodyAllowed() && w.contentLength != w.written {\n\t\t// Did not write enough. Avoid getting out of sync.\n\t\tw.closeAfterReply = true\n\t}\n}\n", New: "\tw.drainRequestBody()\n\tif w.req.MultipartForm != nil {\n\t\tw.req.MultipartForm.RemoveAll()\n\t}\n\n\tif w.req.Method != \"HEAD\" && w.contentLength != -1 && w.bodyAllowed() && w.contentLength != w.written {\n\t\t// Did not write enough. Avoid getting out of sync.\n\t\tw.closeAfterReply = true\n\t}\n}\n\n// drainRequestBody closes (drains) the request body unless the whole TCP\n// connection is about to be closed anyway.\nfunc (w *response) drainRequestBody() {\n\tif w.closeAfterReply {\n\t\treturn\n\t}\n\tw.req.Body.Close()\n}\n"},
 		},
 	})
 }
@@ -77,8 +78,11 @@ func runC28(c *core.Ctx) {
 
 	// (a) writeHeader
 	if wh != nil && bodyFld != nil && reqCL != nil && connFld != nil && e.closeAfter != nil {
+		// everything below looks at the region of writeHeader: the drain may live in
+		// a private helper, the path queries inline such helpers and continue in
+		// writeHeader after a helper returned (with its result bound)
 		var hdrWrites []ssa.Instruction
-		for _, ci := range core.Calls(wh, "bfe_http.Header.WriteSubset", "bfe_http.Header.Write") {
+		for _, ci := range c.P.RegionCalls(wh, "bfe_http.Header.WriteSubset", "bfe_http.Header.Write") {
 			hdrWrites = append(hdrWrites, ci.(ssa.Instruction))
 		}
 		isHdrWrite := func(x ssa.Instruction) bool {
@@ -97,7 +101,7 @@ func runC28(c *core.Ctx) {
 			return ok && e.requestTooLarge != nil && ci.Common().StaticCallee() == e.requestTooLarge
 		}
 		var drains []*ssa.Call
-		core.Instrs(wh, func(in ssa.Instruction) {
+		c.P.RegionInstrs(wh, func(in ssa.Instruction) {
 			call, ok := in.(*ssa.Call)
 			if !ok || !core.CallIs(&call.Call, "io.CopyN") || len(call.Call.Args) != 3 || !isDiscard(call.Call.Args[0]) {
 				return
@@ -120,17 +124,17 @@ func runC28(c *core.Ctx) {
 			key := fmt.Sprintf("writeHeader:drain#%d:", i+1)
 			limit, isK := h1bConstInt(d.Call.Args[2])
 			c.Check("drain-or-close", key+"bounded", d.Pos(), isK && limit > 0, "the post-handler discard of the request body is not bounded by a positive constant: a client could keep the server reading forever")
-			bad := h1bReach(wh, d, func(x ssa.Instruction) bool { return isRTL(x) || isBodyClose(x) }, nil, func(x ssa.Instruction) bool { return core.IsExit(x) || isHdrWrite(x) })
+			bad := h1bReachR(c.P, wh, d, func(x ssa.Instruction) bool { return isRTL(x) || isBodyClose(x) }, nil, func(x ssa.Instruction) bool { return core.IsExit(x) || isHdrWrite(x) })
 			c.Check("drain-or-close", key+"resolved", d.Pos(), bad == nil,
 				"after discarding up to the limit a path reaches the header write with neither requestTooLarge() (close after reply) nor Body.Close() (body fully consumed): unread body bytes would be parsed as the next request")
 			// Body.Close only when the body ended within the limit
 			nC := 0
-			core.Instrs(wh, func(x ssa.Instruction) {
-				if !isBodyClose(x) || core.ReachAvoiding(wh, d, nil, func(y ssa.Instruction) bool { return y == x }) == nil {
+			c.P.RegionInstrs(wh, func(x ssa.Instruction) {
+				if !isBodyClose(x) || h1bReachR(c.P, wh, d, nil, nil, func(y ssa.Instruction) bool { return y == x }) == nil {
 					return
 				}
 				nC++
-				ok := isK && h1bGuarded(x.Block(), func(f h1bFact) bool {
+				ok := isK && h1bGuardedR(c.P, x.Block(), func(f h1bFact) bool {
 					a, b, op, isCmp := h1bCmp(f)
 					if !isCmp {
 						return false
@@ -159,11 +163,11 @@ func runC28(c *core.Ctx) {
 					return op == token.LSS && kv <= limit || op == token.LEQ && kv < limit
 				})
 				c.Check("drain-or-close", fmt.Sprintf("%sclose-only-if-ended#%d", key, nC), x.Pos(), ok,
-					fmt.Sprintf("Body.Close() (which reads the rest of the body without bound) is reached although the discard may have stopped at its limit of %d bytes: established %s", limit, h1bJoinFacts(h1bFactsAt(x.Block()))))
+					fmt.Sprintf("Body.Close() (which reads the rest of the body without bound) is reached although the discard may have stopped at its limit of %d bytes: established %s", limit, h1bJoinFacts(h1bFactsAtR(c.P, x.Block()))))
 			})
 			nR := 0
-			core.Instrs(wh, func(x ssa.Instruction) {
-				if !isRTL(x) || core.ReachAvoiding(wh, d, nil, func(y ssa.Instruction) bool { return y == x }) == nil {
+			c.P.RegionInstrs(wh, func(x ssa.Instruction) {
+				if !isRTL(x) || h1bReachR(c.P, wh, d, nil, nil, func(y ssa.Instruction) bool { return y == x }) == nil {
 					return
 				}
 				nR++
@@ -175,11 +179,11 @@ func runC28(c *core.Ctx) {
 					f, _ := h1bFieldOf(st.Addr)
 					return f == connFld && h1bIsStr("close")(st.Val)
 				}
-				bad := core.ReachAvoiding(wh, x, isCloseHdr, isHdrWrite)
+				bad := h1bReachR(c.P, wh, x, isCloseHdr, nil, isHdrWrite)
 				if bad != nil {
 					// or announced on the same arm just before the call
-					core.Instrs(wh, func(y ssa.Instruction) {
-						if isCloseHdr(y) && core.Dominates(d, y) && core.Dominates(y, x) {
+					core.Instrs(x.Parent(), func(y ssa.Instruction) {
+						if isCloseHdr(y) && d.Parent() == x.Parent() && core.Dominates(d, y) && core.Dominates(y, x) {
 							bad = nil
 						}
 					})
@@ -190,7 +194,7 @@ func runC28(c *core.Ctx) {
 			c.Check("drain-or-close", key+"both-arms", d.Pos(), nC >= 1 && nR >= 1, fmt.Sprintf("after the discard there are %d Body.Close() and %d requestTooLarge() continuations; one of each is expected", nC, nR))
 		}
 		c.Min("drain-or-close", 6)
-		bad := h1bReach(wh, nil, isDrain, func(f h1bFact) bool {
+		bad := h1bReachR(c.P, wh, nil, isDrain, func(f h1bFact) bool {
 			if closeFact(true)(f) || h1bEq(f, h1bIsField(reqCL), h1bIsInt(0)) {
 				return true
 			}
@@ -203,15 +207,15 @@ func runC28(c *core.Ctx) {
 	}
 	// requestTooLarge
 	if rtl := e.requestTooLarge; rtl != nil && e.closeAfter != nil && e.limitHit != nil {
-		c.Check("too-large-marks", "requestTooLarge:closeAfterReply", rtl.Pos(), core.MustPass(rtl, nil, func(x ssa.Instruction) bool { return h1bStoreBool(x, e.closeAfter, true) }) == nil,
+		c.Check("too-large-marks", "requestTooLarge:closeAfterReply", rtl.Pos(), core.MustPass(rtl, nil, core.LiftMust(func(x ssa.Instruction) bool { return h1bStoreBool(x, e.closeAfter, true) }, 2)) == nil,
 			"requestTooLarge can return without closeAfterReply = true: the connection would be reused with unread body bytes on it")
-		c.Check("too-large-marks", "requestTooLarge:requestBodyLimitHit", rtl.Pos(), core.MustPass(rtl, nil, func(x ssa.Instruction) bool { return h1bStoreBool(x, e.limitHit, true) }) == nil,
+		c.Check("too-large-marks", "requestTooLarge:requestBodyLimitHit", rtl.Pos(), core.MustPass(rtl, nil, core.LiftMust(func(x ssa.Instruction) bool { return h1bStoreBool(x, e.limitHit, true) }, 2)) == nil,
 			"requestTooLarge can return without requestBodyLimitHit = true (conn.serve uses it to half-close before closing)")
 		c.Min("too-large-marks", 2)
 	}
 	// (b) finishRequest / body.Close / expectContinueReader.Close
 	if fr := e.finishRequest; fr != nil && bodyFld != nil {
-		bad := h1bReach(fr, nil, isBodyClose, closeFact(true), core.IsReturn)
+		bad := h1bReachR(c.P, fr, nil, isBodyClose, closeFact(true), core.IsReturn)
 		c.Check("finish-drains", "finishRequest", fr.Pos(), bad == nil,
 			"finishRequest can return without req.Body.Close() although it did not see closeAfterReply == true: the unread rest of the request body would be parsed as the next request")
 		c.Min("finish-drains", 1)
@@ -409,7 +413,7 @@ func c28BodilessSilent(c *core.Ctx, e *h1bSrv) {
 			}
 			sites++
 			b := ci.Block()
-			byHead, byChunk := h1bGuarded(b, notHEAD), h1bGuarded(b, chunkingOn)
+			byHead, byChunk := h1bGuardedR(c.P, b, notHEAD), h1bGuardedR(c.P, b, chunkingOn)
 			if byChunk && !byHead {
 				gated++
 			}
@@ -427,12 +431,12 @@ func c28BodilessSilent(c *core.Ctx, e *h1bSrv) {
 		k++
 		b := st.Store.Block()
 		key := fmt.Sprintf("%s:chunking#%d:", core.FuncKey(st.Fn), k)
-		facts := h1bJoinFacts(h1bFactsAt(b))
-		c.Check(rule, key+"not-head", st.Store.Pos(), h1bGuarded(b, notHEAD),
+		facts := h1bJoinFacts(h1bFactsAtR(c.P, b))
+		c.Check(rule, key+"not-head", st.Store.Pos(), h1bGuardedR(c.P, b, notHEAD),
 			"chunking is switched on without Method != HEAD: chunkWriter.close then emits the last-chunk \"0\\r\\n\\r\\n\" after the header block of a HEAD reply and the next reply on the connection is mis-parsed; established: "+facts)
 		for _, code := range []int64{304, 204} {
 			code := code
-			c.Check(rule, fmt.Sprintf("%snot-%d", key, code), st.Store.Pos(), h1bGuarded(b, func(f h1bFact) bool { return h1bNe(f, isStatus, h1bIsInt(code)) }),
+			c.Check(rule, fmt.Sprintf("%snot-%d", key, code), st.Store.Pos(), h1bGuardedR(c.P, b, func(f h1bFact) bool { return h1bNe(f, isStatus, h1bIsInt(code)) }),
 				fmt.Sprintf("chunking is switched on without status != %d: a reply that must not have a body would be followed by a last-chunk; established: %s", code, facts))
 		}
 	}
